@@ -254,3 +254,7 @@ mod tests {
         Ok(())
     }
 }
+
+#[cfg(kani)]
+#[path = "/verif/harness/cram/rans_nx16_decode.rs"]
+pub(crate) mod verif_kani;
